@@ -102,6 +102,16 @@ def run(c):
                 if not (float(lo) - 1e-5 * (1 + abs(lo)) <= v <= float(hi) + 1e-5 * (1 + abs(hi))):
                     out["oracle"].append("linked %s = %r outside its range [%r, %r]" % (p, v, float(lo), float(hi)))
     out["links"] = links
+    # the link function saved at an explicit wavelength (wv_to_save[0] = the smallest band wavelength) must equal the value of
+    # the band observed at that wavelength, whatever the order in which the bands were listed
+    jmin = int(np.argmin(wv))
+    for p in c["linked"]:
+        k = p + "_at_wv"
+        if k in tr:
+            v0 = float(np.asarray(tr[k]["value"]).ravel()[0])
+            vb = float(tr["%s_%s" % (p, bands[jmin])]["value"])
+            if abs(v0 - vb) > 1e-4 * (1 + abs(vb)):
+                out["oracle"].append("linked %s: value in band %s (wavelength %g) is %r but the link function at that wavelength is %r" % (p, bands[jmin], wv[jmin], vb, v0))
     # constants: one site, same value used in all bands -> the renderers receive it (checked via density below)
     for p in c["const"]:
         if p not in tr or tr[p]["type"] not in ("sample", "deterministic"):
